@@ -35,6 +35,8 @@ def plan(tier, seed):
             "from it, and naming another base class gives the node two kinds); subclasses (prov:Person, prov:Plan, prov:Collection ...) are "
             "generated on elements of every kind, matching or not",
             "comparison is set based against unified() because RDF is a set of triples",
+            "C01's carve-out (two values of one attribute that compare equal but differ in kind: 0 / False, 1 / True / 1.0) is applied to "
+            "what RDF and unified() merge: all records of one identifier in one container; such documents are counted and not judged",
             "rdflib 7.x is the RDF library on both sides (the repository pins <7; 7.6 is what is installed offline)",
         ],
     }
@@ -51,6 +53,23 @@ def finish_worker(ctx):
 def make_case(ctx, idx):
     r = case_rng(ctx.seed, ID, idx)
     return {"ops": rdfspace.program(r, non_ascii=r.random() < 0.3, names_non_ascii=r.random() < 0.25)}
+
+
+def merged_kind_collision(doc):
+    """The carve-out of C01 ('one attribute holding two values that compare equal but differ in kind': 0 / False, 1 / True / 1.0),
+    applied to what RDF and unified() merge: all records of one identifier in one container form one subject."""
+    for b in [doc] + list(doc._bundles.values()):
+        groups = {}
+        for rec in b._records:
+            key = rec._identifier.uri if rec._identifier is not None else id(rec)
+            g = groups.setdefault(key, {})
+            for a, vs in rec._attributes.items():
+                g.setdefault(a.uri, set()).update(strict.vkey(v) for v in vs)
+        for g in groups.values():
+            for keys in g.values():
+                if len(keys) != len({strict.collapse_vkey(k) for k in keys}):
+                    return True
+    return False
 
 
 def setsnap(doc):
@@ -123,6 +142,11 @@ def judge(ctx, idx, case):
     if why:
         ctx.count("filtered: %s" % why[:60])
         ctx.count("filtered_total")
+        common.drain_monitors(ctx, idx, case)
+        return
+    if merged_kind_collision(doc):
+        # Python's set semantics, not the format: which of two equal values of different kind survives a merge is not defined
+        ctx.count("skipped.equal_values_of_different_kind_on_one_subject")
         common.drain_monitors(ctx, idx, case)
         return
     problems, text = roundtrip_problems(doc)
